@@ -344,26 +344,12 @@ congruence<Number>::operator/(const congruence<Number> &o) const {
           else          top
     */
     if (o.m_a == 0) {
-      if (m_a % o.m_b == 0)
+      // exact only if b' divides every element of aZ+b (otherwise the
+      // truncation depends on the sign of the dividend)
+      if (m_a % o.m_b == 0 && (m_a == 0 || m_b % o.m_b == 0))
         return congruence<Number>(m_a / o.m_b, m_b / o.m_b);
       else
         return congruence<Number>::top();
-    }
-
-    /*
-         0Z+b / a'Z+b':
-            if N>0   (b div N)Z + 0
-            else     0Z + 0
-
-           where N = a'((b-b') div a') + b'
-    */
-    if (m_a == 0) {
-      Number n(o.m_a * (((m_b - o.m_b) / o.m_a) + o.m_b));
-      if (n > 0) {
-        return congruence<Number>(m_b / n, Number(0));
-      } else {
-        return congruence<Number>(Number(0), Number(0));
-      }
     }
 
     /*
